@@ -716,7 +716,55 @@ func Len(val Value) (int, error) {
 // Equal returns true if the two Values are considered equal.
 func Equal(left Value, right Value) bool {
 	// TODO: Stop-gap for now, this will need to be much more sophisticated.
+	l, lc := container(left)
+	r, rc := container(right)
+	if lc || rc {
+		// Lists and hashes have no string form (they all coerce to ""), which
+		// made every one of them equal to every other and contained in any list
+		// of lists: they are equal when their elements are.
+		return lc && rc && equalContainers(l, r)
+	}
 	return CoerceString(left) == CoerceString(right)
+}
+
+// container returns the slice, array or map held by v, directly or behind a
+// pointer. A value with a String method is its string, not a container.
+func container(v Value) (reflect.Value, bool) {
+	v = unwrapSafe(v)
+	if _, ok := v.(Stringer); ok {
+		return reflect.Value{}, false
+	}
+	r := reflect.Indirect(reflect.ValueOf(v))
+	switch r.Kind() {
+	case reflect.Slice, reflect.Array, reflect.Map:
+		return r, true
+	}
+	return r, false
+}
+
+func equalContainers(l, r reflect.Value) bool {
+	lm, rm := l.Kind() == reflect.Map, r.Kind() == reflect.Map
+	if lm != rm || l.Len() != r.Len() {
+		return false
+	}
+	if !lm {
+		for i := 0; i < l.Len(); i++ {
+			if !Equal(l.Index(i).Interface(), r.Index(i).Interface()) {
+				return false
+			}
+		}
+		return true
+	}
+	if l.Type().Key() != r.Type().Key() {
+		return false
+	}
+	for iter := l.MapRange(); iter.Next(); {
+		other := r.MapIndex(iter.Key())
+		if !other.IsValid() || !Equal(iter.Value().Interface(), other.Interface()) {
+			return false
+		}
+	}
+	return true
 }
 
 // Contains returns true if the haystack Value contains needle.
